@@ -28,7 +28,7 @@ extern int mpt_stream_dispatch(MPT_STRUCT(stream) *srm, int (*cmd)(void *, const
 {
 	struct iovec vec;
 	MPT_STRUCT(message) msg;
-	int ret;
+	int ret, cont;
 	
 	/* use existing or new message */
 	if (srm->_rd._state.data.msg < 0) {
@@ -62,8 +62,16 @@ extern int mpt_stream_dispatch(MPT_STRUCT(stream) *srm, int (*cmd)(void *, const
 		ret &= MPT_EVENTFLAG(Flags);
 	}
 	/* further message on queue */
-	if (mpt_queue_recv(&srm->_rd) > 0) {
+	if ((cont = mpt_queue_recv(&srm->_rd)) > 0) {
 		ret |= MPT_EVENTFLAG(Retry);
+	}
+	/* decoder needs work space first: next call enlarges buffered queue */
+	else if (cont == MPT_ERROR(MissingBuffer)) {
+		int flags = mpt_stream_flags(&srm->_info);
+		if ((flags & MPT_STREAMFLAG(ReadBuf))
+		    && !(flags & MPT_STREAMFLAG(ReadMap))) {
+			ret |= MPT_EVENTFLAG(Retry);
+		}
 	}
 	return ret;
 }
